@@ -184,5 +184,49 @@ for k in ("", "#2", "#3", "#4"):
     add(RT + "RunState::trap|unwrap|unwrap(flush(&stdout()))" + k, "assumption", A4)
 add(RT + "read_byte_stdin|panic:panic|panic!()", "assumption", "A2: reading standard input does not fail with an I/O error other than end of file")
 
+# ---------------------------------------------------------------- object-file loader (C06)
+add("bin::run|unwrap|unwrap(to_str(&*ext))", "assumption", "A5: the file name given on the command line has a UTF-8 extension (the property quantifies over file contents)")
+add("bin::run|unwrap|unwrap(metadata(&file))", "assumption", "A6: fstat on a file that was just opened succeeds")
+for k in ("index 0 < len PtrMetadata(word)", "index 1 < len PtrMetadata(word)"):
+    add("bin::run::{closure#0}|bounds|" + k, "conditional", "the closure only receives the 2-byte slices produced by chunks_exact(2) (C06.R1 checks the chunk size)", on="C06.R1")
+add("runtime::RunEnvironment::from_raw|index|index on &[u16] with adt:core::ops::range::RangeFrom:RangeFrom{1}", "conditional",
+    "dominated by the empty-image guard (len == 0 -> error exit), so 1 <= len (C03.R1)", on="C03.R1")
+add("runtime::RunEnvironment::from_raw|index|index_mut on &mut [u16; 65536] with adt:core::ops::range::Range:Range{orig, (orig + len(&*raw))}", "conditional",
+    "dominated by the size guard orig + (n + 1) <= 0x10000, so orig <= orig + n < 0x10000 (C03.R1)", on="C03.R1")
+add("runtime::RunEnvironment::from_raw|index|clone_from_slice on &mut [u16] with &*raw", "reviewed",
+    "destination mem[orig .. orig + n] and source raw[1..] both have n elements (the range is built from raw.len(), C03.R1 checks its form)")
+add("runtime::RunEnvironment::from_raw|bounds|index (orig + len(&*raw)) < len 0x10000", "conditional",
+    "dominated by the size guard orig + (n + 1) <= 0x10000 (C03.R1)", on="C03.R1")
+
+# ---------------------------------------------------------------- debugger core (C16.R4)
+DB = "debugger::"
+add(DB + "Debugger::orig|panic:debug_assert_eq|debug_assert_eq!()", "conditional",
+    "both values are the origin given to Debugger::new and neither field is ever written afterwards (C12.R1, C17.R5)", on="C12.R1,C17.R5")
+add(DB + "Debugger::resolve_label|overflow:Add|Add(address, orig(&*self))", "conditional",
+    "address = line - 1 < n and the loader guarantees orig + n + 1 <= 0x10000 (C03.R1)", on="C03.R1")
+add(DB + "Debugger::run_command|panic:assert|assert!(`run_command` must only be called if `status == WaitForActio)", "conditional",
+    "its only call site is the WaitForAction arm of the pausing code's status match (C10.R4 transition table)", on="C10.R4")
+add(DB + "Debugger::run_command|overflow:Sub|Sub(count, 1)", "conditional", "count >= 1 at every construction site of Command::StepInto (C10.R3)", on="C10.R3")
+add(DB + "Debugger::run_command::{closure#1}|overflow:Sub|Sub(address, orig(&**_1.0))", "conditional",
+    "breakpoint addresses are origin + index (C11.R3) or were accepted by the user-space guard (C13.R1), so address >= origin", on="C11.R3,C13.R1")
+add(DB + "asm::AsmSource::get_context_range|index|index on &str with adt:core::ops::range::RangeTo:RangeTo{stmt_start}", "conditional", "statement span start (C17.R3, C05.R3)", on="C17.R3")
+add(DB + "asm::AsmSource::get_context_range|index|index on &str with adt:core::ops::range::RangeFrom:RangeFrom{stmt_end}", "conditional", "statement span end (C17.R3, C05.R3)", on="C17.R3")
+add(DB + "asm::AsmSource::get_context_range|overflow:Sub|Sub(stmt_start, count_chars_in_lines(rev(chars(&*source_above))))", "reviewed",
+    "the count is a number of characters of src[..stmt_start], which is at most its byte length stmt_start")
+add(DB + "asm::AsmSource::get_context_range|overflow:Add|Add(stmt_end, count_chars_in_lines(chars(&*source_below)))", "assumption", A1)
+for k in ("", "#2"):
+    add(DB + "asm::AsmSource::get_context_range|overflow:Add|Add(line, *self.orig)" + k, "conditional", "line <= n and orig + n + 1 <= 0x10000 (C03.R1)", on="C03.R1")
+    add(DB + "asm::AsmSource::get_context_range|overflow:Sub|Sub((line + *self.orig), 1)" + k, "conditional", "statement lines start at 1 (C01.R5)", on="C01.R5")
+add(DB + "asm::AsmSource::get_single_line|index|index on &str with range", "conditional", "a statement span (C17.R3, C05.R3)", on="C17.R3")
+add(DB + "asm::AsmSource::show_single_line|index|index on &str with range", "conditional", "a statement span (C17.R3, C05.R3)", on="C17.R3")
+add(DB + "asm::count_chars_in_lines|overflow:Add|Add(line, 1)", "assumption", A1)
+add(DB + "asm::count_chars_in_lines|overflow:Add|Add(count, 1)", "assumption", A1)
+add(DB + "eval::eval_inner|panic:unreachable|unreachable!(internal error: entered unreachable code: tried to simulate )", "variant-built-only-in",
+    "raw data words are only produced for data directives by the full parser; eval uses parse_simple", adt="lace::air::AirStmt", variant="RawWord",
+    builders=["parser::AsmParser::parse_byte"], callers=["parser::AsmParser::parse"])
+add(DB + "resolve_symbol_address::{closure#0}|checked-std:sub|sub(addr, 1)", "conditional", "symbol-table lines are >= 1: the line counter starts at 1 (C01.R5)", on="C01.R5")
+add("runtime::RunEnvironment::run|panic:debug_assert|debug_assert!(halt should be caught if debugger is active)", "reviewed",
+    "with the debugger attached control only falls through to this test after check_pc_bounds() == Equal (the other outcomes `continue`), and 0xFFFF is never in bounds")
+
 json.dump({"entries": E}, open(os.path.join(os.path.dirname(os.path.dirname(os.path.abspath(__file__))), "tables", "ledger.json"), "w"), indent=1)
 print(len(E), "ledger entries")
